@@ -120,7 +120,9 @@ class Ctx:
         if self.work.exists():
             shutil.rmtree(self.work)
         self.work.mkdir(parents=True)
-        self.replay_dir = ROOT / "replays" / prop
+        # VERIF_OUT redirects evidence/replays (used when evaluating seeded changes from a scratch worktree on PYTHONPATH)
+        self.out_root = Path(os.environ["VERIF_OUT"]) if os.environ.get("VERIF_OUT") else ROOT
+        self.replay_dir = self.out_root / "replays" / prop
         self.known = [k for k in load_known() if k["property"] == prop]
         self.jobs = int(os.environ.get("VERIF_JOBS", "16"))
         # bookkeeping
@@ -372,8 +374,8 @@ class Ctx:
             "violations": len(self.violations),
             "harness_errors": self.errors,
         }
-        evdir = ROOT / "evidence"
-        evdir.mkdir(exist_ok=True)
+        evdir = self.out_root / "evidence"
+        evdir.mkdir(parents=True, exist_ok=True)
         (evdir / f"{self.prop}.json").write_text(json.dumps(ev, indent=1, default=str))
         shutil.rmtree(self.work, ignore_errors=True)
         try:
